@@ -30,13 +30,25 @@ Inductive sres := SAccept (k : N) | SZero | SNeg | SEagain | SErr.
 (* what socket.recv did; the bool is the SO_ERROR probe that follows a successful recv *)
 Inductive rres := RChunk (b : bytes) (soerr : bool) | REagain | RErr.
 
+(* what the connection asked its poller to report for its descriptor: the POLL_EVENT_TYPE bits of
+   the last poller.subscribe(fileno, callback, mask) *)
+Record mask := { m_rd : bool; m_wr : bool; m_er : bool }.
+Definition RWE : mask := {| m_rd := true; m_wr := true; m_er := true |}.       (* READ | WRITE | ERROR *)
+Definition RE (w : bool) : mask := {| m_rd := true; m_wr := w; m_er := true |}. (* READ | ERROR [| WRITE] *)
+
 Record conn := {
   st : cstate;
   rbuf : bytes;
   wbuf : bytes;
   last_read : Z;       (* time units chosen by the harness *)
   timeout : Z;
-  reconnect : bool     (* the onDisconnected callback calls connect() at once (TCPTransport does) *)
+  reconnect : bool;    (* the onDisconnected callback calls connect() at once (TCPTransport does) *)
+  interest : option mask;
+    (* subscription of the connection's CURRENT descriptor (self.__fileno) in the poller: None = not
+       subscribed (after poller.unsubscribe, or no descriptor) *)
+  reuse_fd : bool
+    (* environment: the socket a re-entrant connect() creates gets the descriptor NUMBER that
+       disconnect() has just closed (what an OS that hands out the lowest free number does) *)
 }.
 
 Record outs := {
@@ -57,19 +69,26 @@ Definition out_app (a b : outs) : outs :=
      conn_calls := conn_calls a + conn_calls b;
      miss := miss a || miss b |}.
 
-Definition set_st (c : conn) s := {| st := s; rbuf := rbuf c; wbuf := wbuf c; last_read := last_read c; timeout := timeout c; reconnect := reconnect c |}.
-Definition set_rbuf (c : conn) b := {| st := st c; rbuf := b; wbuf := wbuf c; last_read := last_read c; timeout := timeout c; reconnect := reconnect c |}.
-Definition set_wbuf (c : conn) b := {| st := st c; rbuf := rbuf c; wbuf := b; last_read := last_read c; timeout := timeout c; reconnect := reconnect c |}.
-Definition set_last_read (c : conn) t := {| st := st c; rbuf := rbuf c; wbuf := wbuf c; last_read := t; timeout := timeout c; reconnect := reconnect c |}.
+Definition set_st (c : conn) s := {| st := s; rbuf := rbuf c; wbuf := wbuf c; last_read := last_read c; timeout := timeout c; reconnect := reconnect c; interest := interest c; reuse_fd := reuse_fd c |}.
+Definition set_rbuf (c : conn) b := {| st := st c; rbuf := b; wbuf := wbuf c; last_read := last_read c; timeout := timeout c; reconnect := reconnect c; interest := interest c; reuse_fd := reuse_fd c |}.
+Definition set_wbuf (c : conn) b := {| st := st c; rbuf := rbuf c; wbuf := b; last_read := last_read c; timeout := timeout c; reconnect := reconnect c; interest := interest c; reuse_fd := reuse_fd c |}.
+Definition set_last_read (c : conn) t := {| st := st c; rbuf := rbuf c; wbuf := wbuf c; last_read := t; timeout := timeout c; reconnect := reconnect c; interest := interest c; reuse_fd := reuse_fd c |}.
+
+Definition set_interest (c : conn) i := {| st := st c; rbuf := rbuf c; wbuf := wbuf c; last_read := last_read c; timeout := timeout c; reconnect := reconnect c; interest := i; reuse_fd := reuse_fd c |}.
 
 (* what disconnect() leaves when nothing reconnects *)
 Definition cleared (c : conn) : conn :=
-  {| st := Disconnected; rbuf := []; wbuf := []; last_read := last_read c; timeout := timeout c; reconnect := reconnect c |}.
+  {| st := Disconnected; rbuf := []; wbuf := []; last_read := last_read c; timeout := timeout c; reconnect := reconnect c;
+     interest := None (* poller.unsubscribe(self.__fileno); self.__fileno = None *); reuse_fd := reuse_fd c |}.
 
 (* connect(host, port) returning True: fresh socket, both buffers empty,
-   lastReadTime := now, state CONNECTING *)
+   lastReadTime := now, state CONNECTING, the new descriptor subscribed with READ|WRITE|ERROR.
+   (connect() on a connection that is not DISCONNECTED neither closes nor unsubscribes the old
+   socket; that left-over subscription of a descriptor that is no longer the connection's is
+   outside `interest`.) *)
 Definition connect (now : Z) (c : conn) : conn :=
-  {| st := Connecting; rbuf := []; wbuf := []; last_read := now; timeout := timeout c; reconnect := reconnect c |}.
+  {| st := Connecting; rbuf := []; wbuf := []; last_read := now; timeout := timeout c; reconnect := reconnect c;
+     interest := Some RWE (* poller.subscribe(self.__fileno, ..., READ | WRITE | ERROR) *); reuse_fd := reuse_fd c |}.
 
 Definition disc_out : outs :=
   {| accepted := []; delivered := []; disc_calls := 1; conn_calls := 0; miss := false |}.
@@ -134,6 +153,27 @@ Fixpoint read_loop (now : Z) (script : list rres) (c : conn) : conn * outs :=
          end
   end.
 
+(* the end of send(): `if self.__writeBuffer and self.__state == CONNECTED:
+   poller.subscribe(self.__fileno, ..., READ | WRITE | ERROR)` *)
+Definition send_subscribe (c : conn) : conn :=
+  match st c, wbuf c with
+  | Connected, _ :: _ => set_interest c (Some RWE)
+  | _, _ => c
+  end.
+
+(* the WRITE branch of __processConnection after __trySendBuffer(), state CONNECTED:
+   `poller.subscribe(descr, ..., READ | ERROR [| WRITE if the write buffer is non-empty])` *)
+Definition resubscribe (c : conn) : conn :=
+  set_interest c (Some (RE (match wbuf c with [] => false | _ :: _ => true end))).
+
+(* the same call as it was reached BEFORE commit 8fba630 ("the WRITE branch returns unless CONNECTED"), in
+   state CONNECTING (the send failed, disconnect() closed and unsubscribed the descriptor, the
+   callback reconnected): descr, the descriptor of the EVENT, is the closed one.  The call changes
+   the subscription of the connection's current descriptor only if the new socket got the same
+   number (reuse_fd); otherwise it subscribes a descriptor that is not the connection's (outside
+   `interest`). *)
+Definition resubscribe_stale (c : conn) : conn := if reuse_fd c then resubscribe c else c.
+
 Section WithDecoder.
   Variable dec : bytes -> dres.
 
@@ -190,15 +230,26 @@ Section WithDecoder.
   Definition frame (payload : bytes) : bytes := pack_i (zlen payload) ++ payload.
 
   (* the part of __processConnection after the CONNECTING branch: write, read, parse *)
-  Definition poll_connected (now : Z) (rd wr : bool) (sscript : list sres) (rscript : list rres)
+  (* fw = the code as it is (commit 8fba630): after __trySendBuffer() the WRITE branch returns
+     unless the state is CONNECTED.  fw = false: the test as it was (`== DISCONNECTED`), kept for
+     the refutation. *)
+  Definition poll_connected_gen (fw : bool) (now : Z) (rd wr : bool) (sscript : list sres) (rscript : list rres)
              (c : conn) : conn * outs :=
-    let (c2, o2) := if wr then try_send now sscript c else (c, no_out) in
+    let (c2, o2) :=
+      if wr then
+        let (c2, o2) := try_send now sscript c in
+        match st c2 with
+        | Disconnected => (c2, o2)
+        | Connecting => (if fw then c2 else resubscribe_stale c2, o2)
+        | Connected => (resubscribe c2, o2)
+        end
+      else (c, no_out) in
     match st c2 with
     | Disconnected => (c2, o2)
     | Connecting =>
-      (* send failed and the callback reconnected: `state == DISCONNECTED` is
-         false, the handler goes on with the fresh socket, whose recv has
-         nothing (EAGAIN), on an empty read buffer *)
+      (* send failed and the callback reconnected: the handler returns (`state != CONNECTED`).
+         (Before the fix it went on with the fresh socket, whose recv has nothing (EAGAIN), on an
+         empty read buffer: the same result apart from the subscription.) *)
       (c2, o2)
     | Connected =>
       if rd then
@@ -216,10 +267,15 @@ Section WithDecoder.
       else (c2, o2)
     end.
 
-  Definition step (c : conn) (e : event) : conn * outs :=
+  Definition poll_connected := poll_connected_gen true.
+
+  (* fs = the code as it is: send() ends with send_subscribe.  fs = false: send() as it was before
+     commit 6d311d2 (no subscribe at its end), kept for the refutation. *)
+  Definition step_gen (fs fw : bool) (c : conn) (e : event) : conn * outs :=
     match e with
     | ESend now payload script =>
-      try_send now script (set_wbuf c (wbuf c ++ frame payload))
+      let (c1, o) := try_send now script (set_wbuf c (wbuf c ++ frame payload)) in
+      (if fs then send_subscribe c1 else c1, o)
     | EDisconnect now => disconnect now c
     | EConnect now => (connect now c, no_out)
     | EPoll now rd wr er soerr sscript rscript =>
@@ -242,15 +298,23 @@ Section WithDecoder.
               | Connecting =>
                 if rd || wr then
                   ({| st := Connected; rbuf := rbuf c1; wbuf := wbuf c1; last_read := now;
-                      timeout := timeout c1; reconnect := reconnect c1 |},
+                      timeout := timeout c1; reconnect := reconnect c1; interest := interest c1; reuse_fd := reuse_fd c1 |},
                    out_app o1 conn_out)
                 else (c1, o1)
               | _ =>
-                let (c2, o2) := poll_connected now rd wr sscript rscript c1 in
+                let (c2, o2) := poll_connected_gen fw now rd wr sscript rscript c1 in
                 (c2, out_app o1 o2)
               end
           end
       end
+    end.
+
+  Definition step := step_gen true true.
+
+  Fixpoint run_gen (fs fw : bool) (c : conn) (es : list event) : conn * list outs :=
+    match es with
+    | [] => (c, [])
+    | e :: r => let (c1, o) := step_gen fs fw c e in let (c2, os) := run_gen fs fw c1 r in (c2, o :: os)
     end.
 
   Fixpoint run (c : conn) (es : list event) : conn * list outs :=
@@ -259,10 +323,30 @@ Section WithDecoder.
     | e :: r => let (c1, o) := step c e in let (c2, os) := run c1 r in (c2, o :: os)
     end.
 
+  (* ---- the poller side of the subscription ----
+     A level-triggered poller reports writability of a descriptor only if the subscription asks
+     for it. *)
+  Definition wants_write (c : conn) : bool :=
+    match interest c with Some m => m_wr m | None => false end.
+
+  (* a fair environment for the writer: as long as WRITE is subscribed it delivers the next event
+     of ws (meant: WRITE events); when WRITE is not subscribed no WRITE event is ever reported, so
+     it stops *)
+  Fixpoint fair_run (c : conn) (ws : list event) : conn * list outs :=
+    match ws with
+    | [] => (c, [])
+    | e :: r =>
+      if wants_write c then
+        let (c1, o) := step c e in let (c2, os) := fair_run c1 r in (c2, o :: os)
+      else (c, [])
+    end.
+
 End WithDecoder.
 
-Definition init_conn (now tmo : Z) (rc : bool) : conn :=
-  {| st := Connected; rbuf := []; wbuf := []; last_read := now; timeout := tmo; reconnect := rc |}.
+(* TcpConnection(poller, socket=s, ...): CONNECTED, the descriptor subscribed with READ|WRITE|ERROR *)
+Definition init_conn (now tmo : Z) (rc ru : bool) : conn :=
+  {| st := Connected; rbuf := []; wbuf := []; last_read := now; timeout := tmo; reconnect := rc;
+     interest := Some RWE; reuse_fd := ru |}.
 
 (* ---- decode oracle as a finite table, for evaluation ---- *)
 Fixpoint bytes_eqb (a b : bytes) : bool :=
@@ -280,13 +364,22 @@ Fixpoint table_dec (tbl : list (bytes * option N)) (d : bytes) : dres :=
   end.
 
 (* canonical observation of one event, as numbers:
-   [state; |rbuf|; |wbuf|; disc_calls; conn_calls; miss] ++ [|accepted|] ++ accepted ++ [|delivered|] ++ delivered *)
+   [state; |rbuf|; |wbuf|; disc_calls; conn_calls; miss] ++ [|accepted|] ++ accepted ++ [|delivered|] ++ delivered
+   ++ [sub]   where sub = 0 when the connection's descriptor is not subscribed (or there is none),
+                          8 + mask otherwise (READ = 1, WRITE = 2, ERROR = 4 as in POLL_EVENT_TYPE) *)
+Definition sub_code (i : option mask) : N :=
+  match i with
+  | None => 0
+  | Some m => 8 + (if m_rd m then 1 else 0) + (if m_wr m then 2 else 0) + (if m_er m then 4 else 0)
+  end%N.
+
 Definition obs (c : conn) (o : outs) : list N :=
   [match st c with Disconnected => 0 | Connecting => 1 | Connected => 2 end;
    N.of_nat (length (rbuf c)); N.of_nat (length (wbuf c));
    N.of_nat (disc_calls o); N.of_nat (conn_calls o); if miss o then 1 else 0]%N
   ++ N.of_nat (length (accepted o)) :: accepted o
-  ++ N.of_nat (length (delivered o)) :: delivered o.
+  ++ N.of_nat (length (delivered o)) :: delivered o
+  ++ [sub_code (interest c)].
 
 Fixpoint run_obs (dec : bytes -> dres) (c : conn) (es : list event) : list (list N) :=
   match es with
@@ -309,6 +402,6 @@ Fixpoint first_diff (i : N) (a b : list (list N)) : option N :=
   | _, _ => Some i
   end.
 
-Definition check_case (tbl : list (bytes * option N)) (now tmo : Z) (rc : bool) (es : list event)
+Definition check_case (tbl : list (bytes * option N)) (now tmo : Z) (rc ru : bool) (es : list event)
            (expected : list (list N)) : option N :=
-  first_diff 0%N (run_obs (table_dec tbl) (init_conn now tmo rc) es) expected.
+  first_diff 0%N (run_obs (table_dec tbl) (init_conn now tmo rc ru) es) expected.
